@@ -651,3 +651,213 @@ theorem inGrid_of_explicit : ∀ (s : Sheet) (cur : Nat), Explicit s → InGrid 
       by rw [he]; exact inGrid_of_explicit rs r.r h.2.2.2⟩
 
 end XlModel.Readers
+
+namespace XlModel.Readers
+
+/-! ## `checkSheet` on a sheet written without any `r` attribute (rows and cells) -/
+
+def CellsNoRef : List Cell → Prop
+  | [] => True
+  | c :: cs => c.col = 0 ∧ CellsNoRef cs
+
+/-- no `<row>` and no `<c>` carries an `r` attribute -/
+def NoRefs : Sheet → Prop
+  | [] => True
+  | r :: rs => r.r = 0 ∧ CellsNoRef r.cells ∧ NoRefs rs
+
+/-- rows numbered consecutively from `k + 1` -/
+def number : Nat → Sheet → Sheet
+  | _, [] => []
+  | k, r :: rs => { r with r := k + 1 } :: number (k + 1) rs
+
+theorem number_length : ∀ (s : Sheet) (k : Nat), (number k s).length = s.length
+  | [], _ => rfl
+  | _ :: rs, k => by simp [number, number_length rs]
+
+theorem lastRowNumOf_noRef : ∀ (cs : List Cell) (n : Nat), CellsNoRef cs →
+    cs.foldl (fun n c => if c.col ≠ 0 ∧ c.row > n then c.row else n) n = n
+  | [], _, _ => rfl
+  | c :: cs, n, h => by
+    have : ¬ (c.col ≠ 0 ∧ c.row > n) := by simp [h.1]
+    simp only [List.foldl_cons, this, if_false]
+    exact lastRowNumOf_noRef cs n h.2
+
+theorem cs1_noRefs : ∀ (s : Sheet) (st : CS1), NoRefs s →
+    s.foldl cs1Step st = ⟨st.row + s.length, st.r0 ++ number st.row s, st.kept⟩
+  | [], st, _ => by simp [number]
+  | r :: rs, st, h => by
+    have hnum : lastRowNumOf r.cells = 0 := lastRowNumOf_noRef r.cells 0 h.2.1
+    have hstep : cs1Step st r = ⟨st.row + 1, st.r0 ++ [{ r with r := st.row + 1 }], st.kept⟩ := by
+      unfold cs1Step
+      simp [h.1, hnum]
+    simp only [List.foldl_cons, hstep]
+    rw [cs1_noRefs rs _ h.2.2]
+    simp [number, Nat.add_assoc, Nat.add_comm 1]
+
+theorem r0Keeps_eq : Facts.C04.r0KeepsRowAttrs = true := by decide
+theorem r0Running_eq : Facts.C04.r0RunningCol = true := by decide
+
+theorem set_same {α : Type} (l : List α) (i : Nat) (a : α) (h : l[i]? = some a) : l.set i a = l := by
+  apply List.ext_getElem?
+  intro j
+  have hlt : i < l.length := by
+    rcases Nat.lt_or_ge i l.length with h1 | h1
+    · exact h1
+    · rw [List.getElem?_eq_none h1] at h; cases h
+  by_cases hij : i = j
+  · subst hij
+    simp only [List.getElem?_set_self hlt]
+    exact h.symm
+  · simp [List.getElem?_set, hij]
+
+/-- placing the unreferenced cells of a row one after the other appends them -/
+theorem r0Cells_append (n : Nat) (hn : n ≠ 0) : ∀ (cs : List Cell) (i : Nat) (slots : List Row)
+    (tgt : Row), CellsNoRef cs → slots[n - 1]? = some tgt → tgt.cells.length = i →
+    r0CellsAux true n i i cs slots = .ok (slots.set (n - 1) { tgt with cells := tgt.cells ++ cs })
+  | [], _, slots, tgt, _, hs, _ => by
+    have : slots.set (n - 1) { tgt with cells := tgt.cells ++ [] } = slots := by
+      simp only [List.append_nil]
+      exact set_same slots (n - 1) tgt hs
+    simp only [r0CellsAux]
+    rw [this]
+  | c :: cs, i, slots, tgt, h, hs, hl => by
+    have hc : c.col = 0 := h.1
+    have hplace : r0Place slots (i + 1) n c =
+        .ok (slots.set (n - 1) { tgt with cells := tgt.cells ++ [c] }) := by
+      unfold r0Place
+      have h0 : ¬ (n = 0 ∨ i + 1 = 0) := by omega
+      simp only [h0, if_false, hs]
+      congr 2
+      have : i + 1 - tgt.cells.length = 1 := by omega
+      simp [this, hl.symm]
+    simp only [r0CellsAux, hc, if_true, hplace]
+    have hs' : (slots.set (n - 1) { tgt with cells := tgt.cells ++ [c] })[n - 1]? =
+        some { tgt with cells := tgt.cells ++ [c] } := by
+      have hlt : n - 1 < slots.length := by
+        rcases Nat.lt_or_ge (n - 1) slots.length with h1 | h1
+        · exact h1
+        · rw [List.getElem?_eq_none h1] at hs; cases hs
+      simp [hlt]
+    rw [r0Cells_append n hn cs (i + 1) _ _ h.2 hs' (by simp [hl])]
+    simp [List.append_assoc]
+
+end XlModel.Readers
+
+namespace XlModel.Readers
+
+theorem getElem?_append_mid {α : Type} (pre post : List α) (x : α) :
+    (pre ++ x :: post)[pre.length]? = some x := by
+  rw [List.getElem?_append_right (Nat.le_refl _)]; simp
+
+theorem set_append_mid {α : Type} (pre post : List α) (x y : α) :
+    (pre ++ x :: post).set pre.length y = pre ++ y :: post := by
+  rw [List.set_append_right _ _ (Nat.le_refl _)]; simp
+
+theorem r0Rows_number : ∀ (rs : Sheet) (pre : List Row), NoRefs rs →
+    r0Rows (number pre.length rs) (pre ++ List.replicate rs.length emptyRow) =
+      .ok (pre ++ number pre.length rs)
+  | [], pre, _ => by simp [number, r0Rows]
+  | r :: rs, pre, h => by
+    have hrep : List.replicate (r :: rs).length emptyRow = emptyRow :: List.replicate rs.length emptyRow := by
+      simp [List.replicate_succ]
+    simp only [number, r0Rows, hrep, Nat.add_sub_cancel, getElem?_append_mid]
+    have htgt : (if (Facts.C04.r0KeepsRowAttrs && emptyRow.cells.isEmpty && !emptyRow.hidden) = true
+        then { ({ r with r := pre.length + 1 } : Row) with cells := emptyRow.cells } else emptyRow)
+        = ⟨pre.length + 1, r.hidden, []⟩ := by
+      simp [r0Keeps_eq, emptyRow]
+    simp only [htgt, set_append_mid]
+    have hc := r0Cells_append (pre.length + 1) (by omega) r.cells 0
+      (pre ++ (⟨pre.length + 1, r.hidden, []⟩ : Row) :: List.replicate rs.length emptyRow)
+      ⟨pre.length + 1, r.hidden, []⟩ h.2.1
+      (by simpa using getElem?_append_mid pre (List.replicate rs.length emptyRow) (⟨pre.length + 1, r.hidden, []⟩ : Row))
+      rfl
+    simp only [Nat.add_sub_cancel, set_append_mid, List.nil_append] at hc
+    unfold r0Cells
+    rw [r0Running_eq, hc]
+    have ih := r0Rows_number rs (pre ++ [⟨pre.length + 1, r.hidden, r.cells⟩]) h.2.2
+    simp only [List.length_append, List.length_singleton, List.append_assoc, List.singleton_append] at ih
+    simpa using ih
+
+/-- `checkSheet` on a sheet without any `r` attribute only numbers the rows -/
+theorem checkSheet_noRefs (s : Sheet) (h : NoRefs s) : checkSheet s = .ok (number 0 s) := by
+  have hany : s.any (fun r => decide (r.r > Facts.TotalRows)) = false := by
+    induction s with
+    | nil => rfl
+    | cons r rs ih => simp [List.any_cons, h.1, ih h.2.2]
+  unfold checkSheet
+  have hfold := cs1_noRefs s ⟨0, [], []⟩ h
+  simp only [checkSheetBounds_eq, hany, Bool.and_false, Bool.false_eq_true, if_false, hfold,
+    List.nil_append, Nat.zero_add, List.foldl_nil]
+  have := r0Rows_number s [] h
+  simp only [List.length_nil, List.nil_append] at this
+  rw [this]
+  simp only [lastNum, List.getLast?_nil, Nat.not_lt_zero, if_false]
+  congr 1
+  apply List.ext_getElem?
+  intro i
+  simp [List.getElem?_mapIdx]
+
+end XlModel.Readers
+
+namespace XlModel.Readers
+
+theorem colsAsc_noRef : ∀ (cs : List Cell) (cc : Nat), CellsNoRef cs → ColsAsc cc cs
+  | [], _, _ => trivial
+  | c :: cs, cc, h => by
+    have he : effCol cc c = cc + 1 := by simp [effCol, h.1]
+    exact ⟨by rw [he]; omega, by rw [he]; exact colsAsc_noRef cs _ h.2⟩
+
+theorem noRef_mem : ∀ (cs : List Cell), CellsNoRef cs → ∀ c ∈ cs, c.col = 0
+  | [], _, _, hm => by cases hm
+  | x :: xs, h, c, hm => by
+    cases hm with
+    | head => exact h.1
+    | tail _ hm' => exact noRef_mem xs h.2 c hm'
+
+theorem slotsOK_number : ∀ (s : Sheet) (k : Nat), NoRefs s → InGrid k s → SlotsOK k (number k s)
+  | [], _, _, _ => trivial
+  | r :: rs, k, h, hg => by
+    have he : effRow k r = k + 1 := by simp [effRow, h.1]
+    refine ⟨rfl, colsAsc_noRef r.cells 0 h.2.1, ?_, hg.2.1, by have := hg.1; rw [he] at this; exact this,
+      slotsOK_number rs (k + 1) h.2.2 (he ▸ hg.2.2)⟩
+    intro c hc hne
+    exact absurd (noRef_mem r.cells h.2.1 c hc) hne
+
+theorem rowAt_number : ∀ (s : Sheet) (k j : Nat), NoRefs s → rowAt k (number k s) j = rowAt k s j
+  | [], _, _, _ => rfl
+  | r :: rs, k, j, h => by
+    have he : effRow k r = k + 1 := by simp [effRow, h.1]
+    have he' : effRow k ({ r with r := k + 1 } : Row) = k + 1 := by simp [effRow]
+    simp only [number, rowAt, he, he']
+    by_cases hj : k + 1 = j
+    · simp [hj]
+    · simp only [hj, if_false]
+      exact rowAt_number rs (k + 1) j h.2.2
+
+/-- caching a worksheet written without any `r` attribute: `load` succeeds, the cached form
+satisfies the invariant, carries every reference, and denotes the same grid. -/
+theorem load_noRefs (s : Sheet) (h : NoRefs s) (hg : InGrid 0 s) :
+    ∃ s', load s = .ok s' ∧ WF s' ∧ Explicit s' ∧ ∀ c k, value s' c k = value s c k := by
+  have hok := slotsOK_number s 0 h hg
+  obtain ⟨out, hout, hrel⟩ := checkRows_spec _ 0 hok
+  refine ⟨out, ?_, loadedRel_wf _ out 0 hrel, loadedRel_explicit _ out 0 hok hrel, fun c k => ?_⟩
+  · unfold load; rw [checkSheet_noRefs s h]; exact hout
+  · unfold value
+    rw [loadedRel_value _ out 0 hok hrel c k, rowAt_number s 0 k h]
+
+theorem wf_noRefs : ∀ (s : Sheet) (k : Nat), NoRefs s → RowsAsc k s
+  | [], _, _ => trivial
+  | r :: rs, k, h => by
+    have he : effRow k r = k + 1 := by simp [effRow, h.1]
+    exact ⟨by rw [he]; omega, colsAsc_noRef r.cells 0 h.2.1, by rw [he]; exact wf_noRefs rs _ h.2.2⟩
+
+theorem consistent_noRefs : ∀ (s : Sheet) (k : Nat), NoRefs s → Consistent k s
+  | [], _, _ => trivial
+  | r :: rs, k, h =>
+    ⟨fun c hc hne => absurd (noRef_mem r.cells h.2.1 c hc) hne, consistent_noRefs rs _ h.2.2⟩
+
+theorem rowAttrsOK_noRefs : ∀ (s : Sheet), NoRefs s → RowAttrsOK s
+  | [], _ => trivial
+  | r :: rs, h => ⟨by rw [h.1]; exact Nat.zero_le _, rowAttrsOK_noRefs rs h.2.2⟩
+
+end XlModel.Readers
